@@ -192,55 +192,87 @@ Definition law_pair (same : bool) (o1 o2 : outcome) (pyeq hasheq : bool) : list 
      | _, _ => []
      end.
 
-(* ------------------------------------------------------------------ which traits a pattern hooks (end to end) *)
-(* A fixed probe (tools/drivers/c15_driver.py, classes Leaf / Root): every object has the traits 0..7
+(* ------------------------------------------------------------------ which traits a pattern hooks: documented meaning *)
+(* Manual: a name matches the trait of that name (an error if the object has none; "items" only if there is one);
+   "items" also stands for the items of a list, the values of a dict, the items of a set - whichever the object is;
+   "+metadata_name matches any trait on the object that has metadata metadata_name" (a value other than None,
+   _metadata_filter.py docstring); "*" matches any trait.  A list / dict / set has no traits: a name, "+name" or "*"
+   applied to it is an error.  The handler is attached to what is matched when the element notifies, and the rest of
+   the path applies to the objects the matched traits hold / to the items. *)
+Definition m_obs (m : matcher) (o : nat) (ob : object) : list oitem * list hit :=
+  match ob, m with
+  | OTraits ts, MTrait w => match find_trait ts w with Some t => ([trait_item t], []) | None => ([], [Err o w]) end
+  | OTraits ts, MItemsTrait => match find_trait ts items_word with Some t => ([trait_item t], []) | None => ([], []) end
+  | OTraits ts, MMeta w => (map trait_item (filter (fun t => not_none (meta_of (t_meta t) w)) ts), [])
+  | OTraits ts, MAnyTrait => (map trait_item ts, [])
+  | OList items, MListItems => ([([], items)], [])
+  | ODict vals, MDictItems => ([([], vals)], [])
+  | OSet items, MSetItems => ([([], items)], [])
+  | _, MTrait w => ([], [Err o w])
+  | _, (MMeta _ | MAnyTrait) => ([], [Err o []])
+  | _, (MItemsTrait | MDictItems | MListItems | MSetItems) => ([], [])
+  end.
+
+Fixpoint hook_mpath (h : heap) (o : nat) (p : list (matcher * link)) : list hit :=
+  match p with
+  | [] => []
+  | ml :: r =>
+      let '(obs, errs) := m_obs (fst ml) o (nth_obj h o) in
+      errs ++ (if notify_of (snd ml) then map (fun x => Hit o (fst x)) obs else [])
+      ++ flat_map (fun x => flat_map (fun o' => hook_mpath h o' r) (snd x)) obs
+  end.
+
+Definition doc_hooks (h : heap) (o : nat) (t : tree) : list hit := flat_map (hook_mpath h o) (raw_paths t LEnd).
+
+(* The probe of the end-to-end clause (tools/drivers/c15_driver.py, classes Leaf / Root): every Leaf object has the traits
      t_true (tag=True) t_false (tag=False) t_zero (tag=0) t_empty (tag="") t_tuple (tag=()) t_none (tag=None)
-     t_absent (no metadata) t_other (other=1)
-   and the root has in addition trait 8 = child, an instance of Leaf.  Manual: "+metadata_name matches any trait on
-   the object that has metadata metadata_name" (a value other than None, _metadata_filter.py docstring); "*" matches
-   any trait; a name matches the trait of that name.  A change of trait i at level v (0 root, 1 child) is reported
-   as 16*v + i. *)
+     t_absent (no metadata) t_other (other=1)                                   (trait numbers 0..7)
+   object 0 = the root: a Leaf with in addition child (8) holding object 1, kids (10) holding the list 2 = [3; 4],
+   table (11) holding the dict 5 with the value 6, group (12) holding the set 7 = {8}; objects 1, 3, 4, 6, 8 are Leafs.
+   A change of trait number i of object v is reported as 16*v + i; a mutation of the container v as 16*v + 9. *)
 Definition probe_names : list word :=
   [[116; 95; 116; 114; 117; 101]; [116; 95; 102; 97; 108; 115; 101]; [116; 95; 122; 101; 114; 111]; [116; 95; 101; 109; 112; 116; 121]; [116; 95; 116; 117; 112; 108; 101]; [116; 95; 110; 111; 110; 101]; [116; 95; 97; 98; 115; 101; 110; 116]; [116; 95; 111; 116; 104; 101; 114]].
 Definition w_child : word := [99; 104; 105; 108; 100].
+Definition w_kids : word := [107; 105; 100; 115].
+Definition w_table : word := [116; 97; 98; 108; 101].
+Definition w_group : word := [103; 114; 111; 117; 112].
 Definition w_tag : word := [116; 97; 103].
 Definition w_other : word := [111; 116; 104; 101; 114].
+Definition leaf_traits : list tdesc :=
+  map (fun nv => mkT (fst nv) (snd nv) None)
+      (combine probe_names
+         [[(w_tag, MVTruthy)]; [(w_tag, MVFalsy)]; [(w_tag, MVFalsy)]; [(w_tag, MVFalsy)]; [(w_tag, MVFalsy)];
+          [(w_tag, MVNone)]; []; [(w_other, MVTruthy)]]).
+Definition probe_heap : heap :=
+  [OTraits (leaf_traits ++ [mkT w_child [] (Some 1%nat); mkT w_kids [] (Some 2%nat); mkT w_table [] (Some 5%nat);
+                            mkT w_group [] (Some 7%nat)]);
+   OTraits leaf_traits; OList [3%nat; 4%nat]; OTraits leaf_traits; OTraits leaf_traits;
+   ODict [6%nat]; OTraits leaf_traits; OSet [8%nat]; OTraits leaf_traits].
 
-Definition hooks (m : matcher) (level i : Z) : bool :=
-  match m with
-  | MTrait w => if (i =? 8) then (level =? 0) && word_eqb w w_child
-                else word_eqb w (nth (Z.to_nat i) probe_names [])
-  | MAnyTrait => (i <? 8) || (level =? 0)
-  | MMeta w => if word_eqb w w_tag then (i <? 5) else if word_eqb w w_other then (i =? 7) else false
-  | _ => false                      (* items: no trait named items, no container *)
+Fixpoint index_of (w : word) (l : list word) (i : Z) : Z :=
+  match l with [] => 15 | x :: r => if word_eqb x w then i else index_of w r (i + 1) end.
+Definition hit_code (x : hit) : option Z :=
+  match x with
+  | Hit o w => Some (16 * Z.of_nat o +
+                     (if word_eqb w w_child then 8 else if word_eqb w [] then 9 else if word_eqb w w_kids then 10
+                      else if word_eqb w w_table then 11 else if word_eqb w w_group then 12
+                      else index_of w probe_names 0))
+  | Err _ _ => None
   end.
-
-Definition idxs : list Z := [0; 1; 2; 3; 4; 5; 6; 7; 8].
-Definition level_hits (ml : matcher * link) (level : Z) : list Z :=
-  if notify_of (snd ml) then map (fun i => 16 * level + i) (filter (hooks (fst ml) level) idxs) else [].
-
-(* paths the probe can decide: one element, or  child <connector> element ; everything else: None *)
-Definition path_hits (p : list (matcher * link)) : option (list Z) :=
-  match p with
-  | [e] => Some (level_hits e 0)
-  | [(MTrait w, l); e] => if word_eqb w w_child
-                          then Some ((if notify_of l then [8] else []) ++ level_hits e 1) else None
-  | _ => None
-  end.
-Fixpoint all_hits (ps : list (list (matcher * link))) : option (list Z) :=
-  match ps with
-  | [] => Some []
-  | p :: r => match path_hits p, all_hits r with Some a, Some b => Some (a ++ b) | _, _ => None end
-  end.
+Definition has_err (l : list hit) : bool := existsb (fun x => match x with Err _ _ => true | _ => false end) l.
+Fixpoint hit_codes (l : list hit) : list Z :=
+  match l with [] => [] | x :: r => match hit_code x with Some c => c :: hit_codes r | None => hit_codes r end end.
 
 Definition zsubset (a b : list Z) : bool := forallb (fun x => existsb (Z.eqb x) b) a.
+Definition zset_eqb (a b : list Z) : bool := zsubset a b && zsubset b a.
 
-(* 16  the handler registered by the text on the probe fired for another set of traits than the documented one *)
+(* 16  the handler registered by the text on the probe fired for another set of traits than the documented one
+   17  observe raised although the documented meaning hooks without error, or conversely *)
 Definition law_hook (s : list chr) (registered : bool) (fired : list Z) : list Z :=
   match doc_parse s with
-  | Some (_, t) => match all_hits (raw_paths t LEnd) with
-                   | Some want => if registered then chk 16 (zsubset want fired && zsubset fired want) else []
-                   | None => []
-                   end
+  | Some (_, t) =>
+      let want := doc_hooks probe_heap 0 t in
+      if has_err want then chk 17 (negb registered)
+      else chk 17 registered ++ (if registered then chk 16 (zset_eqb (hit_codes want) fired) else [])
   | None => []
   end.
